@@ -32,8 +32,11 @@ func req_AliasContext(parent context.Context) bool { return parent != nil }
 
 //@ ensures WithContext C18.cid.fresh
 func ens_WithContext(ret0 context.Context) bool {
+	if ret0 == nil { // (asked first: a clause that looks into a nil context would be undefined, hence vacuous)
+		return false
+	}
 	cid, ok := ret0.Value(cidKey).(int)
-	return ret0 != nil && ok && cid == ghost_lastcid()
+	return ok && cid == ghost_lastcid()
 }
 
 // ghost: the value returned by the most recent atomic increment of the counter (engine primitive)
@@ -51,6 +54,22 @@ func ens_AliasContext(source context.Context, ret0 context.Context) bool {
 	}
 	got, ok := ret0.Value(cidKey).(int)
 	return ok && got == want
+}
+
+// without a source id the aliased context is a NEW connection: it carries the value its own atomic increment returned
+// (so it shares its id with nobody, whatever the other goroutines do in between)
+//@ ensures AliasContext C18.cid.alias-fresh
+func ens_AliasContext_fresh(source context.Context, ret0 context.Context) bool {
+	if source != nil {
+		if _, has := source.Value(cidKey).(int); has {
+			return true
+		}
+	}
+	if ret0 == nil {
+		return false
+	}
+	got, ok := ret0.Value(cidKey).(int)
+	return ok && got == ghost_lastcid()
 }
 
 // an application object exposing its own connection id is only asked for it
